@@ -1,7 +1,7 @@
 from nucsvc.enginespec import *
 
 SOLVER_STATS_SAME = "forall(k, 0, 13, implies(k == STATS_IDX_SOLVER_CHOICE_NB or k == STATS_IDX_SOLVER_CHOICE_DEPTH or k == STATS_IDX_SOLVER_SOLUTION_NB, statistics[k] == old(statistics)[k]))"
-CA_ENS = CA_FRAME + [CA_SHRINK, CA_STATUS, CA_BOUND, CA_UNBOUND,
+CA_ENS = CA_FRAME_IFACE + [CA_SHRINK, CA_STATUS, CA_BOUND, CA_UNBOUND,
     ("C17.solver_stats", SOLVER_STATS_SAME),
     ("C17.backtracks_mono", "statistics[STATS_IDX_SOLVER_BACKTRACK_NB] >= old(statistics)[STATS_IDX_SOLVER_BACKTRACK_NB]"),
     ("C09.records", "forall(l, 0, stacks_top[0], dom_update_stack[l, 0] == old(dom_update_stack)[l, 0] and dom_update_stack[l, 1] == old(dom_update_stack)[l, 1])"),
